@@ -1,9 +1,9 @@
 #!/bin/bash
-# confirm_mutant.sh <prop> <A|B> : confirms a sub-agent's seeded change in a fresh scratch worktree of /repo HEAD
+# confirm_mutant.sh <prop> <A|B> [<srcdir> [<name-suffix>]] : confirms a sub-agent's seeded change in a fresh scratch worktree of /repo HEAD
 #   - patch applies, crate builds, the 79 tests still pass
 #   - the demonstration test passes WITHOUT the patch and fails WITH it
 # on success copies the files to /verif/seeded/<prop>-<A|B>/
-P=$1; X=$2; SRC=/tmp/mut/$P/OUT; W=/tmp/confirm-$P-$X
+P=$1; X=$2; SRC=${3:-/tmp/mut}/$P/OUT; Y=${4:-$X}; W=/tmp/confirm-$P-$Y
 rm -rf $W; git -C /repo worktree prune; git -C /repo worktree add -q --detach $W HEAD || exit 2
 cp /repo/Cargo.lock $W/
 cd $W
@@ -20,7 +20,7 @@ ok=0
 echo "$t1" | grep -q "79 passed; 0 failed" && echo "$t2" | grep -q "79 passed; 1 failed" && echo "$t3" | grep -q "80 passed; 0 failed" && ok=1
 cd /; git -C /repo worktree remove --force $W
 if [ $ok = 1 ]; then
-  D=/verif/seeded/$P-$X; mkdir -p $D
+  D=/verif/seeded/$P-$Y; mkdir -p $D
   cp $SRC/$X.patch.diff $D/patch.diff; cp $SRC/$X.demo.diff $D/demo.diff; cp $SRC/$X.notes.md $D/notes.md
   echo "$res CONFIRMED"
 else
